@@ -298,7 +298,9 @@ pub fn execute(st: &mut Stats, spec: &FamilySpec, sc: &Scenario, meta: &Meta, or
                 "trace_before_violation": sim::render(&out.log[lo..at.min(out.log.len())], 60)}),
         });
     }
-    an.counters
+    let mut counters = an.counters;
+    counters.run_hash = out.hash;
+    counters
 }
 
 pub fn run_family(p: &Params, spec: &FamilySpec) -> (Stats, &'static str) {
@@ -382,7 +384,8 @@ pub fn record_coverage(st: &mut Stats, sc: &Scenario, c: &monitors::Counters, sp
     if nontrivial {
         // identity of the execution: scenario seed folded with nothing else is enough to be distinct,
         // the interleaving hash is folded in by the caller through the run output when available
-        st.nontrivial(mix(hash_seed, c.get("push_sent") * 31 + c.get("reads")));
+        // identity of the execution = its interleaving hash (task-poll order + wire-message order) within its scenario
+        st.nontrivial(mix(hash_seed, c.run_hash));
     }
     if st.samples.is_empty() {
         st.sample(describe(sc));
@@ -399,7 +402,7 @@ pub const C02: FamilySpec = FamilySpec {
     runs_thorough: 1_600_000,
     rule: "one case = one execution of a seeded two-endpoint scenario (1-8 multiplexed streams, both directions, plain/vectored/empty writes, read and fill_buf/consume readers, \
 independent (rwnd, threshold) per side, link capacity 1/2/8/unbounded, flush back-pressure, schedule jitter at poll boundaries) on the real Multiplexor over the in-memory WebSocket; \
-every byte is position-addressed so each read is checked to be the exact continuation of its own stream; non-trivial = at least one read returned data; distinct = distinct (scenario, traffic) identities",
+every byte is position-addressed so each read is checked to be the exact continuation of its own stream; non-trivial = at least one read returned data; distinct = distinct (scenario, interleaving hash) pairs, the hash covering task-poll order and wire-message order",
 };
 
 pub const C03: FamilySpec = FamilySpec {
